@@ -681,6 +681,16 @@ func lxRandString(r interface{ Intn(int) int }) string {
 	if r.Intn(8) == 0 {
 		n = r.Intn(40)
 	}
+	if r.Intn(4) == 0 {
+		// whole runes, including ones whose UTF-8 encoding contains the bytes 0x85 / 0xA0
+		// (NEL and NBSP when misread as Latin-1) or other bytes a byte-wise scanner could misjudge
+		chunks := []string{"à", "Å", "ą", "全", "入", "é", "ß", "日", "a", "b", "1", "-", "*", "/", "=", ".", "\u00a0", "\u0085", "☃"}
+		var sb strings.Builder
+		for i := 0; i < 1+n%6; i++ {
+			sb.WriteString(chunks[r.Intn(len(chunks))])
+		}
+		return sb.String()
+	}
 	b := make([]byte, n)
 	style := r.Intn(3)
 	for i := range b {
@@ -838,7 +848,8 @@ func lxRecord(out string, n int) error {
 		judge("quoted", lxRandString(r), strconv.Quote)
 	}
 	// bare words of the documented shape
-	const bareAlpha = "abzAND OR-*/\"\\.=+_é世'#~%$"
+	// includes runes whose UTF-8 encoding contains the bytes 0x85 / 0xA0 (à Å ą 全 入)
+	const bareAlpha = "abzAND OR-*/\"\\.=+_é世'#~%$àÅą全入"
 	for i := 0; i < n/2; i++ {
 		m := 1 + r.Intn(6)
 		var b strings.Builder
